@@ -202,7 +202,7 @@ def grp_cases(rng, tier, mid=4):
 
 
 # ------------------------------------------------------------------------------------------ behavioural
-REF_OPS = [[0, 5, -3], [6, 2], [6, -1], [6, 5], [7, 4], [7, 3], [7, -1], [8, 200], [8, 7], [9, 7], [10, 0], [10, 1], [10, 3], [12, 255, 70000, -5], [13], [14],
+REF_OPS = [[0, 5, -3], [6, 2], [6, -1], [6, 5], [7, 4], [7, 3], [7, -1], [8, 200], [8, 7], [9, 7], [10, 0], [10, 1], [10, 3], [10, 2, 1, 5], [10, 1, 2, 5], [10, 3, 1, 8], [10, 0, 1, 4], [10, 9, 2, 3], [10, 2, 0, 6], [10, 1, 1, 0], [12, 255, 70000, -5], [13], [14],
            [16, 5], [16, -2], [18, 4], [18, -9], [19, 0], [19, 1], [19, 13], [19, -7], [19, 65535], [20, 3], [20, -1], [21, 9],
            [22, 4], [22, 7], [23, 21], [24], [25, 2], [25, 0]]
 MUT_OPS = [[1, 5], [1, 0], [1, 24], [2, 3], [2, 0], [3, 4], [3, 0], [4, 6], [4, 0], [5, 0], [5, 1], [5, 2], [5, 3], [5, 4], [5, 5], [5, 6], [5, 7], [5, 8], [11, 0], [11, 4], [15], [17, 2], [17, 3]]
